@@ -318,7 +318,16 @@ fn gen_kind(s: &mut Incent, rng: &mut Rng, ctx: &mut Ctx, o: &crate::scen::incen
                 4 => (a0.saturating_add(1000), a1),
                 _ => (a0, a1),
             };
-            mk(actor, Op::Helper { amounts: [a0, a1.max(1)], dur, funds_a, allow_b }, adv_s, fault)
+            let slippage = match rng.below(10) {
+                0..=3 => None,
+                4 => Some("0".to_string()),
+                5 => Some("0.000000000000000001".to_string()),
+                6 => Some("0.01".to_string()),
+                7 => Some("0.5".to_string()),
+                8 => Some("1".to_string()),
+                _ => Some(format!("0.{:03}", rng.range(1, 999))),
+            };
+            mk(actor, Op::Helper { amounts: [a0, a1.max(1)], dur, funds_a, allow_b, slippage }, adv_s, fault)
         }
         // ---- open flow
         5 => {
@@ -582,10 +591,10 @@ pub fn simplify(step: &Step) -> Vec<Step> {
                 }
             }
         }
-        Op::Helper { amounts, dur, funds_a, allow_b } => {
-            if *funds_a == amounts[0] && *allow_b == amounts[1] {
+        Op::Helper { amounts, dur, funds_a, allow_b, slippage } => {
+            if *funds_a == amounts[0] && *allow_b == amounts[1] && slippage.is_none() {
                 for a in shr(amounts[0].min(amounts[1])) {
-                    push(Op::Helper { amounts: [a, a], dur: *dur, funds_a: a, allow_b: a }, step.adv_s, step.fault);
+                    push(Op::Helper { amounts: [a, a], dur: *dur, funds_a: a, allow_b: a, slippage: None }, step.adv_s, step.fault);
                 }
             }
         }
